@@ -9,6 +9,7 @@
 
 pub mod explore;
 pub mod h1;
+pub mod hub;
 pub mod peer;
 pub mod scen;
 pub mod worker;
@@ -273,6 +274,11 @@ enum IoChoice {
 impl SimHooks for Sim {
     fn epoll_wait(&mut self, epfd: c_int, events: *mut libc::epoll_event, max: c_int, timeout_ms: c_int) -> c_int {
         self.stats.turns += 1;
+        // time passes while the subject runs: without this a loop that waits
+        // for `deadline < now` with a zero timeout would spin forever at the
+        // exact virtual instant of the deadline
+        let t = self.clock_ns + 20_000;
+        self.set_clock(t);
         self.stats.max_syscalls_between_waits = self.stats.max_syscalls_between_waits.max(self.syscalls_since_wait);
         self.syscalls_since_wait = 0;
         let max = max.max(1) as usize;
